@@ -161,6 +161,21 @@ claim('C03',
       'finite differences',
       'DESIGN.md#c03')
 
+claim('C11',
+      'Coefficients: 19 stock cases (covering AC, DC, renewable, exciter, governor, load and shunt models incl. list-valued '
+      'parameters) x device-MVA, device-kV and system-MVA variants: every parameter flagged power / ipower / voltage / current '
+      '/ z / y / r / g / dc_* of every populated model satisfies system value = input value x textbook ratio recomputed by '
+      'the harness from the raw bases. Histories: every sequence of depth <=2 (and depth 3 ending in a checking operation; '
+      'full depth 3 in thorough) over {alter, alter(attr=vin), Group.alter, set, PFlow.run, TDS.init, TDS.run, System.reset, '
+      'dump json, dump xlsx, as_dict(vin)} on the 5-bus dynamic case against a reference dict (vin, v, k); exports hold the '
+      'altered inputs; the power balance recomputed from the input data holds after a power flow; an altered time constant '
+      'is in dae.Tf and TDS.Teye.',
+      'Trusts the textbook ratios in the harness and vmc/refs/acflow.py; histories on one case (the alteration code is '
+      'model-independent); reset after dynamic initialisation is documented as refused.',
+      'exhaustive enumeration of flagged parameters x base variants; explicit-state exploration of alter/set/reset/export '
+      'histories against a reference dict',
+      'DESIGN.md#c11')
+
 _PENDING = 'check not built yet in this round; planned per DESIGN.md (bounded exhaustive exploration applies)'
 for _p in ALL:
     if _p not in CLAIMED:
